@@ -803,7 +803,8 @@ impl CompressedState {
     fn uncompress(&self, lg_k: u8, num_coupons: u32) -> (r: UncompressedState)
       requires
         4 <= lg_k <= 26,
-        /*@C14.cpc.uncompress.words*/ self.table_data_words <= self.table_data@.len() && self.window_data_words <= self.window_data@.len(),
+        /*@C14.cpc.uncompress.words*/ self.table_data@.len() == self.table_data_words && self.table_data_words <= 0xffff_ffff,
+        /*@C14.cpc.uncompress.words*/ self.window_data@.len() == self.window_data_words && self.window_data_words <= 0xffff_ffff,
         /*@C14.cpc.uncompress.pre*/ uncompress_pre(self.cview(), lg_k, num_coupons),
       ensures
         r == uncompressed_of(self.cview(), lg_k, num_coupons),
@@ -825,6 +826,7 @@ fn uncompress_surprising_values(
     lg_k: u8,
 ) -> (r: Vec<u32>)
   requires 4 <= lg_k <= 26,
+    /*@C14.cpc.usv.words*/ data@.len() == data_words, data_words <= 0xffff_ffff,
     /*@C14.cpc.usv.pairs_u32*/ pow2(lg_k as nat) + num_pairs <= 0xffff_ffff,
     /*@C14.cpc.usv.alloc_pairs*/ 2 * num_pairs <= 32 * data@.len(),
   ensures r@.len() == num_pairs
@@ -833,7 +835,8 @@ fn uncompress_surprising_values(
 impl CompressedState {
     // the sparse arm of `uncompress`, real body: REACHED FROM deserialize; nothing is known of `self` but what the parser established (cs_of(bytes))
     fn uncompress_sparse_flavor ( & self , lg_k : u8 ) -> ( r : UncompressedState ) requires 4 <= lg_k <= 26 ,
-/*@C14.cpc.sparse.flags*/ self . window_data @ . len ( ) == 0 && self . table_data @ . len ( ) > 0 , ensures r . window @ . len ( ) == 0 , r . table . wf ( ) , r . table . num_valid_bits == 6 + lg_k , r . table . num_items == self . table_num_entries {
+/*@C14.cpc.sparse.flags*/ self . window_data @ . len ( ) == 0 && self . table_data @ . len ( ) > 0 ,
+/*@C14.cpc.sparse.words*/ self . table_data @ . len ( ) == self . table_data_words && self . table_data_words <= 0xffff_ffff , ensures r . window @ . len ( ) == 0 , r . table . wf ( ) , r . table . num_valid_bits == 6 + lg_k , r . table . num_items == self . table_num_entries {
 debug_assert! ( self . window_data . is_empty ( ) ) ;
 debug_assert! ( ! self . table_data . is_empty ( ) ) ;
 let pairs = uncompress_surprising_values ( & self . table_data , self . table_data_words , self . table_num_entries , lg_k , ) ;
